@@ -70,7 +70,8 @@ func chartArchive(name string) []byte {
 	}
 	defer os.RemoveAll(dir)
 	ch := &chart.Chart{
-		Metadata:  &chart.Metadata{APIVersion: "v2", Name: name, Version: "1.0.0", Type: "application"},
+		// (a description line ending in three dots: the signed message separates metadata and digests with a line of three dots)
+		Metadata:  &chart.Metadata{APIVersion: "v2", Name: name, Version: "1.0.0", Type: "application", Description: "Deploys the API, the workers, etc..."},
 		Templates: []*chart.File{{Name: "templates/cm.yaml", Data: []byte("apiVersion: v1\nkind: ConfigMap\nmetadata:\n  name: " + name + "\n")}},
 		Values:    map[string]interface{}{},
 	}
